@@ -1467,6 +1467,12 @@ class Real(base.SimpleAsn1Type):
         if self._value in self._inf:
             return self._value
         else:
+            # far beyond the float range anyway: do not compute a power
+            # with millions of digits first (an exponent of 2**32, five
+            # octets on the wire, would take minutes)
+            if self._value[0] and self._value[2] > 4096:
+                raise OverflowError('int too large to convert to float')
+
             return float(
                 self._value[0] * pow(self._value[1], self._value[2])
             )
